@@ -109,7 +109,7 @@ def record_decode(rid, payload, labelmsm=1, via="ctor", fields=None, frame=None,
         from pyrtcm.rtcmtypes_core import RTCM_DATA_FIELDS as fields  # noqa: N811
     rec = {
         "rid": rid,
-        "p": list(payload),
+        "p": list(payload or b""),
         "lab": lab_of(labelmsm),
         "out": "msg",
         "lib": True,
@@ -122,6 +122,8 @@ def record_decode(rid, payload, labelmsm=1, via="ctor", fields=None, frame=None,
         "via": "parse" if via == "parse" else "ctor",
         "frame": list(frame) if via == "parse" else [],
         "validate": int(validate),
+        "ops": [],
+        "sd": "",
     }
     msg = None
     try:
